@@ -23,6 +23,10 @@ func selftest(runs int) int {
 	if err != nil {
 		fatal(2, "%v", err)
 	}
+	auto, err := buildX(false, true)
+	if err != nil {
+		fatal(2, "%v", err)
+	}
 	tmp, _ := os.MkdirTemp(filepath.Join(verifDir, ".cache"), "selftest-")
 	defer os.RemoveAll(tmp)
 	engines := []string{"chain", "conc", "rw", "recovery", "static"}
@@ -35,7 +39,7 @@ func selftest(runs int) int {
 	for _, e := range engines {
 		for _, b := range []struct {
 			bin, tag string
-		}{{plain, "plain"}, {race, "race"}} {
+		}{{plain, "plain"}, {race, "race"}, {auto, "auto"}} {
 			for _, p := range []int{1, 4, 16} {
 				for rep := 0; rep < 2; rep++ {
 					tag := fmt.Sprintf("%s-%s-p%d-r%d", e, b.tag, p, rep)
@@ -58,9 +62,12 @@ func selftest(runs int) int {
 			if strings.Contains(j.tag, "race") {
 				n = runs / 3
 			}
+			if strings.Contains(j.tag, "-auto-") {
+				n = runs / 6
+			}
 			cmd := exec.Command(j.bin, "batch", "-engine", j.engine, "-seed", "424242", "-n", strconv.Itoa(n), "-budget", "600s", "-out", j.out+".json",
 				"-loghash", j.out, "-replays", filepath.Join(tmp, "replays"))
-			cmd.Env = append(os.Environ(), "GOMAXPROCS="+strconv.Itoa(j.procs), "SIM_TMP="+tmp, "GORACE=halt_on_error=1 exitcode=66")
+			cmd.Env = append(os.Environ(), "GOMAXPROCS="+strconv.Itoa(j.procs), "SIM_TMP="+tmp, "GORACE=halt_on_error=1 exitcode=66", autoEnv(strings.Contains(j.tag, "-auto-")))
 			if b, err := cmd.CombinedOutput(); err != nil {
 				mu.Lock()
 				fails++
@@ -75,7 +82,7 @@ func selftest(runs int) int {
 		// build kinds (plain vs -race) the schedule must be identical; the event log may differ
 		// in one benign way (development-mode panic pages print program counters, so their
 		// byte length depends on the build) and is therefore compared within a kind only.
-		ref := map[string]map[string]string{"plain": {}, "race": {}}
+		ref := map[string]map[string]string{"plain": {}, "race": {}, "auto": {}}
 		refTag := map[string]string{}
 		total, diverged := 0, 0
 		for _, j := range jobs {
@@ -85,6 +92,9 @@ func selftest(runs int) int {
 			kind := "plain"
 			if strings.Contains(j.tag, "-race-") {
 				kind = "race"
+			}
+			if strings.Contains(j.tag, "-auto-") {
+				kind = "auto" // a different program (a yield before every statement): compared with itself only
 			}
 			b, err := os.ReadFile(j.out)
 			if err != nil {
